@@ -16,6 +16,7 @@ props! {
     c04: C04: "C04",
     c05: C05: "C05",
     c06: C06: "C06",
+    c07: C07: "C07",
     c08: C08: "C08",
     c11: C11: "C11",
     c12: C12: "C12",
